@@ -2464,6 +2464,10 @@ where
                 .push(value.to_string());
             }
           }
+        } else {
+          // no feature list was given: the operator only annotates its target
+          // (RFC 9165), which is matched as usual
+          self.visit_type2(target)?;
         }
 
         self.state.ctrl = None;
